@@ -58,7 +58,7 @@ func (ilvEngine) NumCases(tier string) int {
 	case "race":
 		quick, thorough = 1000, 40000
 	case "elpscheck":
-		quick, thorough = 320, 4800
+		quick, thorough = 320, 2400
 	}
 	if tier == "thorough" {
 		return thorough
